@@ -175,7 +175,9 @@ def _run(ix, R):
                 'each gas is initialised with (nlayers, T, P, z) and its mixProfile appended in the order of self._gases',
                 not why, key='; '.join(why), detail='; '.join(why), loc=f.loc(apps.node))
         # concatenation order: fill first, then gases
-        st = [e for e in fl.of('assign') if e.name == 'mix_profile' and 'fill_atmosphere' in fmt(fl, e.value)]
+        # (whatever the list is called: the assignment that joins the fill-gas profiles with the trace-gas profiles)
+        st = [e for e in fl.of('assign') if isinstance(e.value, RF) and isinstance(e.node, ast.Assign) and
+              isinstance(e.node.value, ast.BinOp) and 'fill_atmosphere' in fmt(fl, e.value)]
         s = one(st, 'concatenation')
         fill = fl.tab.atom('call', tuple(fa.args), extra=('fn:self.fill_atmosphere',))
         va = s.value
@@ -458,8 +460,12 @@ def _run(ix, R):
         b['s'] = spec(fl, 'max(int(pl - sw/2), 0)', b)
         b['e'] = spec(fl, 'min(int(pl + sw/2), N - 1)', b)
         want = spec(fl, '10**interp(log(P[::-1]), log([P[0], P[s], P[e], P[-1]][::-1]), log10([cs, cs, ct, ct][::-1]))', b)
-        cp = [e for e in fl.of('assign') if e.name == 'chemprofile']
-        c = one(cp, 'chemprofile')
+        # (whatever it is called: the unsmoothed profile is the local computed by the interpolation)
+        cp = [e for e in fl.of('assign') if isinstance(e.value, RF) and not e.loops and e.value.mentions(
+            lambda a: a.head == 'call' and a.extra and a.extra[0] == 'fn:interp') and
+            atom_of(fl, e.value) is not None and atom_of(fl, e.value).head == 'pow' and not e.value.mentions(
+                lambda a: a.head == 'call' and a.extra and a.extra[0] == 'fn:movingaverage')]
+        c = one(cp, 'interpolated (unsmoothed) profile')
         R.check('5.twolayer', 'ALG', site,
                 'two-layer profile: log-log interpolation through (P[0], surface), (P[start], surface), (P[end], top), '
                 '(P[-1], top) with start/end clamped to [0, N-1] around the transition pressure',
